@@ -283,37 +283,48 @@ func runCheck(cmd, prop, tier, repo, root, only string, keep, verbose, writeExpe
 			// condition; stage 3: the full budget
 			var best SolverResult
 			var allr []SolverResult
-			if len(o.Ctx.qaxioms) > 0 && tier != "thorough" {
+			provedQuery := q // the variant of the query that was discharged (thorough re-checks it on every solver)
+			if len(o.Ctx.qaxioms) > 0 {
 				// stage 0: without the quantified spec-function axioms (fewer assumptions: still a proof)
 				o0 := *o
 				o0.NoQAxioms = true
 				o0.NoFAxioms = true
-				if r0 := quickSolve(buildQuery(&o0, true, false), smtDir, o.Name+"-ground", 3); r0.Result == "unsat" {
+				q0 := buildQuery(&o0, true, false)
+				if r0 := quickSolve(q0, smtDir, o.Name+"-ground", 3); r0.Result == "unsat" {
 					r0.Solver += "(ground)"
 					best, allr = r0, []SolverResult{r0}
+					provedQuery = q0
 				}
 			}
-			if best.Result != "unsat" && len(o.Ctx.faxioms) > 0 && tier != "thorough" {
+			if best.Result != "unsat" && len(o.Ctx.faxioms) > 0 {
 				// stage 0b: without the function axioms of pure functions (fewer assumptions: still a proof;
 				// a `sat` here is not a counterexample, the axioms may exclude it)
 				o0 := *o
 				o0.NoFAxioms = true
-				r0, a0 := discharge(buildQuery(&o0, true, false), smtDir, o.Name+"-nofax", max(3, timeout/3), false)
+				q0b := buildQuery(&o0, true, false)
+				r0, a0 := discharge(q0b, smtDir, o.Name+"-nofax", max(3, timeout/3), false)
 				if r0.Result == "unsat" {
 					r0.Solver += "(no function axioms)"
 					best, allr = r0, a0
+					provedQuery = q0b
 				}
 			}
 			if best.Result != "unsat" {
-				best, allr = discharge(q, smtDir, o.Name, max(3, timeout/3), tier == "thorough")
+				best, allr = discharge(q, smtDir, o.Name, max(3, timeout/3), false)
 			}
 			if best.Result != "unsat" && best.Result != "sat" {
 				if r, ok := splitDischarge(o, smtDir, max(3, timeout/2)); ok {
 					best = r
 					allr = append(allr, r)
 				} else {
-					best, allr = discharge(q, smtDir, o.Name, timeout, tier == "thorough")
+					best, allr = discharge(q, smtDir, o.Name, timeout, false)
 				}
+			}
+			if tier == "thorough" && best.Result == "unsat" {
+				// thorough: the discharged query is run to the end on every solver; a solver answering `sat`
+				// where another proved `unsat` is a disagreement (unknown/timeout answers are not)
+				_, all2 := discharge(provedQuery, smtDir, o.Name+"-all", timeout, true)
+				allr = append(allr, all2...)
 			}
 			rep := &OblReport{Name: o.Name, Kind: o.Kind, Result: best.Result, Solver: best.Solver, Ms: best.Ms, Pos: o.Pos, Clause: o.Src, All: allr, obl: o, QueryKB: len(q) / 1024}
 			if tier == "thorough" {
